@@ -6,8 +6,10 @@ ASSUME \A s \in TShapes : ((s.signed => s.n >= 1) /\ ~(s.n = 0 /\ s.unit = "")) 
 \* "idleAfterSend": the handler has sent a reply and waits on its context (a subscription); lateend: the request body of
 \* a raw HTTP/1.1 client is chunked and its terminating chunk arrives only after the handler has read the message
 ASSUME \A sh \in {"unary", "cstream", "sstream", "bidi"}, pt \in {"running", "blockedRecv", "blockedFirstRecv", "blockedSend", "returned", "idleAfterSend"},
-          cl \in Clients, le \in BOOLEAN :
+          cl \in Clients, le \in BOOLEAN, gz \in BOOLEAN :
          (le => (cl # "grpc-cancel" /\ sh \in {"unary", "sstream"})) /\ (pt = "idleAfterSend" => sh \in {"sstream", "bidi"}) /\ (pt = "blockedFirstRecv" => sh \in {"cstream", "bidi"})
-           => PrintT(<<"SCHED", ToJson([shape |-> sh, point |-> pt, client |-> cl, lateend |-> le])>>)
+         \* gzip: the upload of a plain HTTP client is Content-Encoding: gzip and breaks off inside the gzip stream
+         /\ (gz => (cl = "http-disconnect" /\ pt = "blockedFirstRecv" /\ ~le))
+           => PrintT(<<"SCHED", ToJson([shape |-> sh, point |-> pt, client |-> cl, lateend |-> le, gzip |-> gz])>>)
 NoPoints == {}
 =============================================================================
